@@ -127,10 +127,13 @@ Inductive op := OStore (b : block) | OConn (b : block) | ODisc (b : block).
 
 Record pst := mkP { p_d : dst; p_chain : list block }.
 
+(** connectBlock's own test is that the parent hash is the tip's.  The height
+    was tested when the block was accepted (maybeAcceptBlock: height = height
+    of the parent's index node + 1), and that parent node is the tip. *)
 Definition tip_ok (c : list block) (b : block) : bool :=
   match c with
   | [] => bht b =? 0
-  | t :: _ => N.eqb (bpar b) (bid t)
+  | t :: _ => N.eqb (bpar b) (bid t) && (bht b =? bht t + 1)
   end.
 
 Definition exec_op (sid : N -> N) (s : pst) (o : op) : pst * list wunit :=
@@ -139,7 +142,10 @@ Definition exec_op (sid : N -> N) (s : pst) (o : op) : pst * list wunit :=
       let us := store_units (p_d s) b in
       (mkP (replay (p_d s) us) (p_chain s), us)
   | OConn b =>
-      if tip_ok (p_chain s) b then
+      (* connectBlock is reached only for a block whose rows are stored:
+         dbMaybeStoreBlock succeeded (maybeAcceptBlock) or LoadBlockByHash
+         found it (reorganizeChain) *)
+      if tip_ok (p_chain s) b && d_blk (p_d s) (bid b) then
         let us := conn_units sid (p_d s) b in
         (mkP (replay (p_d s) us)
              (match td_of (p_d s) b with Some _ => b :: p_chain s | None => p_chain s end), us)
@@ -161,36 +167,6 @@ Fixpoint run_ops (sid : N -> N) (s : pst) (ops : list op) : pst * list wunit :=
       let '(s1, us) := exec_op sid s o in
       let '(s2, log) := run_ops sid s1 r in
       (s2, us ++ log)
-  end.
-
-(** * the pure evolution of the best chain *)
-
-Definition chain_step (c : list block) (o : op) : list block :=
-  match o with
-  | OStore _ => c
-  | OConn b => if tip_ok c b then b :: c else c
-  | ODisc b => match c with
-               | t :: c' => if N.eqb (bid t) (bid b) then c' else c
-               | [] => c
-               end
-  end.
-
-(** validity of an operation on the chain [c]: a block is stored only while it
-    is not on the best chain; a connected block has the next height and is not
-    already on the chain *)
-Definition memid (x : N) (c : list block) : bool := existsb (fun y => N.eqb (bid y) x) c.
-
-Definition op_ok (c : list block) (o : op) : bool :=
-  match o with
-  | OStore b => negb (memid (bid b) c)
-  | OConn b => (bht b =? Z.of_nat (length c)) && negb (memid (bid b) c)
-  | ODisc _ => true
-  end.
-
-Fixpoint ops_valid (c : list block) (ops : list op) : bool :=
-  match ops with
-  | [] => true
-  | o :: r => op_ok c o && ops_valid (chain_step c o) r
   end.
 
 (** * the operations of a delivery history (instrumented C25 model) *)
